@@ -61,6 +61,7 @@ F_BUILDER = "join_impl/src/action_expr_chain/builder.rs"
 F_LIB = "join/src/lib.rs"
 F_UNIT = "join_impl/src/parse/unit.rs"
 F_CHAIN = "join_impl/src/action_expr_chain/mod.rs"
+F_JMOD = "join_impl/src/join/mod.rs"
 
 PARSE_STREAM_ENSURES = [
     # the next group comes from the unit parser (parse_until): whatever that one promises about it
@@ -887,6 +888,73 @@ def top_units():
         block_call="Self::new_fields(handler, futures_crate_path, custom_joiner, custom_transpose_results, lazy_branches, config, branches, branch_count, is_async, is_try, is_spawn)",
         subst=[{"find": "\n    where\n        Self: Sized,", "replace": "", "why": "trivial where-clause dropped (Self is a struct)", "sig": True}],
     )], self_ty="JoinOutput", header="impl<'a> JoinOutput<'a>"))
+    # ---- generate_join: from the parsed input to the expansion (C16: which option reaches which field; C07/C09: the
+    # default futures path).  Monomorphised at its only instantiation T = JoinInputDefault (join/src/lib.rs::join_impl).
+    u.append(ty(F_JMOD, "JoinInputDefault"))
+    u.append(raw("specs_generate_join", """
+/// what `<JoinOutput as ToTokens>::to_tokens` appends for a well-formed JoinOutput
+pub open spec fn is_expansion_of(jo: JoinOutput, out: Seq<Tok>) -> bool {
+    exists|pats: Seq<TokenStream>, vars: Seq<Ident>| #[trigger] result_names_ok(jo, pats, vars)
+        && out == top_toks(jo, steps_toks(jo, pats, vars, %s, %s, 0))
+}
+
+/// `quote::ToTokens::into_token_stream` (provided method: a fresh stream filled by `to_tokens`) for JoinOutput, whose
+/// `to_tokens` is emitted as an inherent method because its postcondition is relational
+pub fn jo_into_token_stream<'a>(jo: JoinOutput<'a>) -> (r: TokenStream)
+    requires jo_wf(jo),
+    ensures is_expansion_of(jo, r@),
+{
+    let mut s = TokenStream::new();
+    jo.to_tokens(&mut s);
+    proof {
+        let (pats, vars) = choose|pats: Seq<TokenStream>, vars: Seq<Ident>| #[trigger] result_names_ok(jo, pats, vars)
+            && s@ == Seq::<Tok>::empty() + top_toks(jo, steps_toks(jo, pats, vars, %s, %s, 0));
+        assert(Seq::<Tok>::empty() + top_toks(jo, steps_toks(jo, pats, vars, %s, %s, 0)) =~= top_toks(jo, steps_toks(jo, pats, vars, %s, %s, 0)));
+    }
+    s
+}
+
+/// the tokens of `::futures`
+pub open spec fn default_futures_path_toks() -> Seq<Tok> {
+    Seq::<Tok>::empty().push(Tok::Punct(':')).push(Tok::Punct(':')).push(Tok::Ident("futures"@))
+}
+
+/// C16 / C07 / C09: the JoinOutput `generate_join` builds from the parsed input: branches, handler and joiner as parsed,
+/// `transpose_results(..)` decides the transposition and `lazy_branches(..)` the laziness (each with its documented
+/// default), the futures path is the given one, else `::futures` for async kinds, else none
+pub open spec fn gj_ok(jo: JoinOutput, join: JoinInputDefault, config: Config, out: Seq<Tok>) -> bool {
+    &&& jo_wf(jo) && new_fields_ok(jo, join.branches@, join.branches@.len() as int)
+    &&& jo.branch_count == join.branches@.len() && jo.config == config
+    &&& handler_kind(jo.handler) == handler_kind(opt_ref(&join.handler))
+    &&& (match join.handler { Some(h) => jo.handler is Some && *(jo.handler->0) == h, None => jo.handler is None })
+    &&& (match join.custom_joiner { Some(j) => jo.custom_joiner is Some && *(jo.custom_joiner->0) == j, None => jo.custom_joiner is None })
+    &&& opt_path(jo.futures_crate_path) == (match join.futures_crate_path { Some(p) => p.ptoks(), None => if config.is_async { default_futures_path_toks() } else { no_toks() } })
+    &&& jo.lazy_branches == doc_lazy_default(join.lazy_branches, config.is_spawn, config.is_async)
+    &&& jo.transpose == doc_transpose_default(join.transpose_results, config.is_try, config.is_async)
+    &&& is_expansion_of(jo, out)
+}
+""" % ((GS_FI, GS_EV) * 4)))
+    u.append(fns(F_JMOD, [
+        fn("futures_crate_path", "r", ensures=["r == opt_ref(&self.futures_crate_path)"]),
+        fn("branches", "r", ensures=["r@ == self.branches@"],
+           subst=[{"find": "&[Self::Chain]", "replace": "&[ActionExprChain]", "why": "associated type of the JoinInput impl written out (type Chain = ActionExprChain)", "sig": True}]),
+        fn("handler", "r", ensures=["r == opt_ref(&self.handler)"],
+           subst=[{"find": "Option<&Self::Handler>", "replace": "Option<&Handler>", "why": "associated type of the JoinInput impl written out (type Handler = Handler)", "sig": True}]),
+        fn("joiner", "r", ensures=["r == opt_ref(&self.custom_joiner)"]),
+        fn("transpose_results_option", "r", ensures=["r == self.transpose_results"]),
+        fn("lazy_branches_option", "r", ensures=["r == self.lazy_branches"]),
+    ], self_ty="JoinInputDefault", trait="JoinInput", header="impl JoinInputDefault"))
+    u.append(fns(F_JMOD, [fn("generate_join", "r",
+        requires=["forall|b: int| 0 <= b < join.branches@.len() ==> (#[trigger] join.branches@[b]).members@.len() < usize::MAX",
+                  "forall|b: int| 0 <= b < join.branches@.len() ==> branch_steps_ok((#[trigger] join.branches@[b]).members@)",
+                  # otherwise `JoinOutput::new` returns Err and the `unwrap` panics: that panic IS the compile error of a
+                  # rejected kind / handler combination (C13), so it is excluded here, not proved absent
+                  "doc_guard(config.is_try, config.is_async, handler_kind(opt_ref(&join.handler)), join.futures_crate_path is Some, join.branches@.len() as int) == 0"],
+        ensures=["exists|jo: JoinOutput| #[trigger] is_expansion_of(jo, r@) && gj_ok(jo, *join, config, r@)"],
+        chain_helpers={"unwrap.into_token_stream": "jo_into_token_stream({}.unwrap())"},
+        subst=[{"find": "<T: JoinInput<Chain = ActionExprChain, Handler = Handler>>(\n    join: &T,", "replace": "(\n    join: &JoinInputDefault,",
+                "why": "monomorphised at the only instantiation (join/src/lib.rs::join_impl passes a JoinInputDefault)", "sig": True}],
+    )]))
     return u
 
 
@@ -1154,8 +1222,8 @@ OBLIGATIONS = {
     "C04": [("step", "JoinOutput::generate_step"), ("step", "lemma_apos_step"), ("step", "lemma_apos_ends"), ("gen", "JoinOutput::generate_step_branch"), ("steps", "JoinOutput::join_steps"), ("steps", "lemma_join_comma"), ("steps", "lemma_count_take_step"), ("gen", "JoinOutput::generate_results_transposer"), ("gen", "JoinOutput::active_step_branch_count"), ("gen", "JoinOutput::extract_results_tuple"), ("gen", "lemma_refs_toks"), ("gen", "lemma_filter_tokenizable"),
             ("gen", "JoinOutput::is_branch_active_in_step"), ("gen", "JoinOutput::generate_indexed_step_results_name"),
             ("gen", "JoinOutput::branch_result_name"), ("gen", "JoinOutput::branch_result_pat")],
-    "C07": [("gen", "JoinOutput::wrap_into_block"), ("steps", "JoinOutput::generate_thread_builders_and_spawn_joiners"), ("steps", "JoinOutput::generate_step_tail"), ("steps", "lemma_concat_all"), ("entries", "lemma_entry_table"), ("top", "JoinOutput::to_tokens"), ("gen", "JoinOutput::generate_step_branch")],
-    "C13": [("top", "JoinOutput::new"), ("top", "JoinOutput::to_tokens"), ("guards", "Handler::is_map"), ("guards", "Handler::is_then"), ("guards", "Handler::is_and_then"), ("guards", "new_guards"), ("gen", "JoinOutput::generate_handle"), ("gen", "JoinOutput::extract_results_tuple"), ("gen", "JoinOutput::generate_results_transposer")],
+    "C07": [("top", "generate_join"), ("top", "JoinInputDefault::futures_crate_path"), ("gen", "JoinOutput::wrap_into_block"), ("steps", "JoinOutput::generate_thread_builders_and_spawn_joiners"), ("steps", "JoinOutput::generate_step_tail"), ("steps", "lemma_concat_all"), ("entries", "lemma_entry_table"), ("top", "JoinOutput::to_tokens"), ("gen", "JoinOutput::generate_step_branch")],
+    "C13": [("top", "generate_join"), ("top", "JoinInputDefault::handler"), ("top", "JoinOutput::new"), ("top", "JoinOutput::to_tokens"), ("guards", "Handler::is_map"), ("guards", "Handler::is_then"), ("guards", "Handler::is_and_then"), ("guards", "new_guards"), ("gen", "JoinOutput::generate_handle"), ("gen", "JoinOutput::extract_results_tuple"), ("gen", "JoinOutput::generate_results_transposer")],
     "C09": [("gen", "JoinOutput::expand_process_expr"), ("steps", "JoinOutput::generate_step_tail"), ("top", "JoinOutput::to_tokens"), ("step", "JoinOutput::generate_step"), ("step", "lemma_apos_step"), ("step", "lemma_apos_ends"), ("gen", "JoinOutput::generate_step_branch")],
     # the steps of every kind sit in a plain block of the scope the macro is called in (no closure / thread / box of
     # the macro's own between the caller's locals and the branch expressions)
@@ -1168,13 +1236,13 @@ OBLIGATIONS = {
     "C05": [("steps", "JoinOutput::join_steps"), ("steps", "lemma_join_comma"), ("steps", "lemma_count_take_step"), ("gen", "JoinOutput::generate_results_transposer"), ("parse", "parse_until_suffix"), ("parse", "ActionGroup::parse_stream"),
             ("core", "ActionGroup::to_wrapper_action_expr"), ("core", "ActionGroup::new"), ("core", "ExprGroup::application_type")],
     "C12": [("sep", "JoinOutput::separate_block_expr_process"), ("sep", "JoinOutput::separate_block_expr_err"), ("sep", "JoinOutput::separate_block_expr_initial"), ("sep", "lemma_sep_step"), ("steps", "JoinOutput::join_steps"), ("steps", "lemma_join_comma"), ("steps", "lemma_count_take_step"), ("builder", "ActionExprChainBuilder::build_from_parse_stream"), ("gen", "JoinOutput::branch_result_name"), ("gen", "JoinOutput::branch_result_pat")],
-    "C15": [("top", "JoinOutput::new"), ("top", "JoinOutput::new_fields"), ("top", "lemma_new_fields"), ("steps", "JoinOutput::generate_steps"), ("gen", "lemma_split_balance"), ("gen", "lemma_accepted_chain_never_underflows"), ("gen", "lemma_split_members"), ("gen", "lemma_accepted_branch"), ("builder", "lemma_member_ok"), ("builder", "lemma_unwrap_only_from_unwrap"), ("gen", "JoinOutput::split_branch_steps"), ("gen", "JoinOutput::generate_step_branch"), ("parse", "parse_until_suffix"), ("builder", "ActionExprChainBuilder::build_from_parse_stream"), ("builder", "ActionExprChain::append_member"),
+    "C15": [("top", "generate_join"), ("top", "JoinOutput::new"), ("top", "JoinOutput::new_fields"), ("top", "lemma_new_fields"), ("steps", "JoinOutput::generate_steps"), ("gen", "lemma_split_balance"), ("gen", "lemma_accepted_chain_never_underflows"), ("gen", "lemma_split_members"), ("gen", "lemma_accepted_branch"), ("builder", "lemma_member_ok"), ("builder", "lemma_unwrap_only_from_unwrap"), ("gen", "JoinOutput::split_branch_steps"), ("gen", "JoinOutput::generate_step_branch"), ("parse", "parse_until_suffix"), ("builder", "ActionExprChainBuilder::build_from_parse_stream"), ("builder", "ActionExprChain::append_member"),
             ("builder", "lemma_append_facts"), ("builder", "lemma_balanced_depth"),
             ("gen", "JoinOutput::wrap_last_step_stream"), ("gen", "JoinOutput::process_step_action_expr"),
             ("gen", "JoinOutput::generate_def_and_step_streams"), ("gen", "JoinOutput::expand_process_expr"),
             ("core", "ProcessExpr::to_tokens")],
     "C14": [("parse", "parse_until_suffix"), ("det", "lemma_first_match_is_longest"), ("optable", "lemma_operator_tables")],
-    "C16": [("top", "JoinOutput::new"), ("gen", "JoinOutput::generate_handle"), ("gen", "JoinOutput::generate_step_branch"), ("steps", "JoinOutput::generate_step_tail"), ("guards", "new_init_lazy_branches"), ("guards", "new_init_transpose")],
+    "C16": [("top", "generate_join"), ("top", "jo_into_token_stream"), ("top", "JoinInputDefault::futures_crate_path"), ("top", "JoinInputDefault::branches"), ("top", "JoinInputDefault::handler"), ("top", "JoinInputDefault::joiner"), ("top", "JoinInputDefault::transpose_results_option"), ("top", "JoinInputDefault::lazy_branches_option"), ("top", "JoinOutput::new"), ("gen", "JoinOutput::generate_handle"), ("gen", "JoinOutput::generate_step_branch"), ("steps", "JoinOutput::generate_step_tail"), ("guards", "new_init_lazy_branches"), ("guards", "new_init_transpose")],
     "C17": [("sep", "is_block_expr"), ("sep", "JoinOutput::separate_block_expr_process"), ("sep", "JoinOutput::separate_block_expr_err"), ("sep", "JoinOutput::separate_block_expr_initial"), ("sep", "lemma_sep_step")] + [("names", "lemma_names_never_clash"), ("names", "lemma_names_table"), ("names", "lemma_name3_injective"), ("names", "lemma_name1_injective"), ("names", "lemma_distinguishable"), ("names", "lemma_names_strlits"), ("gen", "JoinOutput::generate_def_and_step_streams")] + [("core", n) for n in ['construct_var_name', 'construct_step_results_name', 'construct_result_name', 'construct_thread_builder_name', 'construct_inspect_fn_name', 'construct_spawn_tokio_fn_name', 'construct_results_name', 'construct_handler_name', 'construct_internal_value_name', 'construct_thread_builder_fn_name', 'construct_expr_wrapper_name']],
     "C20": [("core", n) for n in ['construct_var_name', 'construct_step_results_name', 'construct_result_name', 'construct_thread_builder_name', 'construct_inspect_fn_name', 'construct_spawn_tokio_fn_name', 'construct_results_name', 'construct_handler_name', 'construct_internal_value_name', 'construct_thread_builder_fn_name', 'construct_expr_wrapper_name']],
     "C10": [("sep", "JoinOutput::separate_block_expr_process"), ("sep", "JoinOutput::separate_block_expr_err"), ("sep", "JoinOutput::separate_block_expr_initial"), ("sep", "is_block_expr"), ("sep", "err_is_replaceable"), ("sep", "initial_is_replaceable"), ("sep", "lemma_sep_step"), ("sep", "lemma_defs_empty"), ("sep", "lemma_any_block_upto_step")] + [("core", "ProcessExpr::is_replaceable"), ("core", "ProcessExpr::replace_inner_exprs"), ("core", "ErrExpr::replace_inner_exprs"),
